@@ -307,13 +307,17 @@ class StopEvent(Event):
     @model_serializer(mode="wrap")
     def custom_model_dump(self, handler: Any) -> dict[str, Any]:
         data = handler(self)
+        # include _data in serialization, as DictLikeModel.custom_model_dump does
+        if self._data:
+            data["_data"] = self._data
         # include _result in serialization for base StopEvent
         if self._result is not None:
             data["result"] = self._result
         return data
 
     def __repr__(self) -> str:
-        dict_items = {**self._data, **self.model_dump()}
+        dumped = {k: v for k, v in self.model_dump().items() if k != "_data"}
+        dict_items = {**self._data, **dumped}
         # Format as key=value pairs
         parts = [f"{k}={v!r}" for k, v in dict_items.items()]
         dict_str = ", ".join(parts)
